@@ -176,6 +176,29 @@ def mkPovm (required phys : Bool) : Ctor := mkWith povm_ctor_raises required phy
 def mkGate (required phys : Bool) : Ctor := mkWith gate_ctor_raises required phys
 def mkMProcess (required phys : Bool) : Ctor := mkWith mprocess_ctor_raises required phys
 
+/-! ## the basis verdicts of `MatrixBasis` / `SparseMatrixBasis` (is_hermitian, is_orthogonal, is_normal); `is_0thpropI` stays a parameter -/
+
+/-- `np.vdot(a, b)` of two matrices: `Σ_k conj(a_k)·b_k` -/
+def vdot (A B : List C) : C :=
+  (A.zip B).foldl (fun acc (p : C × C) =>
+    (acc.1 + (p.1.1 * p.2.1 + p.1.2 * p.2.2), acc.2 + (p.1.1 * p.2.2 - p.1.2 * p.2.1))) (0, 0)
+
+/-- `is_hermitian()`: every element passes `mutil.is_hermitian(mat)` (atol omitted ⇒ the global setting `g`) -/
+def basisIsHermitian (B : List CMat) (g : Rat) : Option Bool := allSome (B.map fun M => isHermitian M g)
+
+/-- all pairs `(left, right)` with `left` before `right`, in the order of the double loop -/
+def pairsBefore {α : Type} : List α → List (α × α)
+  | [] => []
+  | a :: l => l.map (fun b => (a, b)) ++ pairsBefore l
+
+/-- `is_orthogonal()`: `np.isclose(np.vdot(left, right), 0, atol=Settings.get_atol())` for every pair (`rtol` generated) -/
+def basisIsOrthogonal (B : List CMat) (g rtol : Rat) : Bool :=
+  (pairsBefore B).all fun p => isCloseCR (vdot p.1.e p.2.e) 0 g rtol
+
+/-- `is_normal()`: `isclose(vdot(mat, mat), 1, atol=Settings.get_atol())` for every element (`rtol` generated) -/
+def basisIsNormal (B : List CMat) (g rtol : Rat) : Bool :=
+  B.all fun M => isCloseCR (vdot M.e M.e) 1 g rtol
+
 /-! ## the basis flag that selects the branch of gate.is_tp (generated aggregation) -/
 
 /-- `CompositeSystem.is_orthonormal_hermitian_0thprop_identity` from the four basis verdicts
@@ -262,6 +285,15 @@ def handle (args : List String) : Option String :=
         | "gate" => some (mkGate (req = 1) (phys = 1)) | "mprocess" => some (mkMProcess (req = 1) (phys = 1))
         | _ => none
       some (match r with | .ok => "ok" | .notPhysical => "notPhysical")
+  | ["basis", cls, d, k, re, im, g] => do
+      -- the three modelled basis verdicts of one basis (k matrices of size d): replies `hermitian orthogonal normal`
+      let d ← parseNat? d; let k ← parseNat? k; let es ← parseC? re im; let g ← parseRat? g
+      let B : List CMat := (blocks (d * d) k es).map fun e => ⟨d, e⟩
+      let (ro, rn) ← match cls with
+        | "MatrixBasis" => some (mb_is_orthogonal_rtol, mb_is_normal_rtol)
+        | "SparseMatrixBasis" => some (smb_is_orthogonal_rtol, smb_is_normal_rtol)
+        | _ => none
+      some s!"{obit (basisIsHermitian B g)} {bit (basisIsOrthogonal B g ro)} {bit (basisIsNormal B g rn)}"
   | ["onh0", subs] => do
       -- one group of four bits per subsystem: is_normal, is_orthogonal, is_hermitian, is_0thpropI
       let gs ← (subs.splitOn ",").mapM fun g =>
